@@ -7,13 +7,15 @@ from pyvc.values import VInt, VStr, VObj, VDict, VList, VNative, NONE
 
 
 def mk_base(run):
-    """base activation with a plain name x and a dotted name a.b (nested container), values already bound"""
+    """base activation with a plain name x and a dotted name a.b (nested container), values already bound, and a declared-only name y"""
     inner = VDict(ev.NameContainer, [], {"parent": NONE})
     ref_b = VObj(ev.Referent, {"annotation": VNative(ct.IntType), "container": NONE, "_value": VInt(ct.IntType, z3.Int("old_ab")), "_value_set": se.lift(True)})
     inner.pairs.append([VStr(str, "b"), ref_b])
     ref_a = VObj(ev.Referent, {"annotation": NONE, "container": inner, "_value": NONE, "_value_set": se.lift(False)})
     ref_x = VObj(ev.Referent, {"annotation": VNative(ct.IntType), "container": NONE, "_value": VInt(ct.IntType, z3.Int("old_x")), "_value_set": se.lift(True)})
-    ids = VDict(ev.NameContainer, [[VStr(str, "a"), ref_a], [VStr(str, "x"), ref_x]], {"parent": NONE})
+    # a bare declaration: annotation only, no value bound yet, no nested container (e.g. an annotation without a binding)
+    ref_y = VObj(ev.Referent, {"annotation": VNative(ct.IntType), "container": NONE, "_value": NONE, "_value_set": se.lift(False)})
+    ids = VDict(ev.NameContainer, [[VStr(str, "a"), ref_a], [VStr(str, "x"), ref_x], [VStr(str, "y"), ref_y]], {"parent": NONE})
     import collections
     fmap = VObj(collections.ChainMap, {"maps": VList(list, [VDict(dict, [])])}, label="functions")
     return VObj(ev.Activation, {"identifiers": ids, "functions": fmap, "package": NONE}, label="base")
